@@ -15,6 +15,11 @@ CHECKS = {
   text="Theorem analysis_sound: for pipelines of any length over a well-formed library, if the reference flow analysis accepts with external requirements req and the initial context holds every key of req (or any superset), then no node is rejected at construction and no node fails with an unresolved parameter, a missing/deleted key, an unknown parameter or the type gate — only the processor's own error remains possible. key_delta_declared: a key can only appear/disappear at a node that is declared to create/suppress it. The real inspection is compared with the reference analysis (verdict and required keys) on generated pipelines including the shapes the property names, and real runs with exactly the required keys and with supersets are checked for flow errors, per-node created/suppressed facts, parameter origins (by value provenance over snapshots) and unknown-parameter names.",
   note="Trusted: Lean kernel; props/c02.py oracles and generator; nodeWF (operations write the keys they declare; writing slicers are outside the theorem). Origin truth is decided by the real-code oracle only (no Lean theorem). One open known finding (defaulted parameter overridden by a required initial key is reported as 'default').",
   design="§7 C02"),
+ "C06": dict(
+  technique="Lean 4 proof (the template-method lifecycle as a function of a shape record and a fault plan; loop lemma by induction over the node list) + decidable side condition on the try/except/finally shape extracted from execute() + fault-injection runs of the real orchestrator compared with the model and judged by a real-code oracle",
+  text="Theorem trace_wellformed: for every lifecycle shape satisfying `good` and every fault plan — any number of nodes, a failure at any node or during node construction, of Exception class or BaseException class — the emitted stream is exactly pipeline_start, one SER per started node (all succeeded but a final failing one), one pipeline_end that is ok iff the run returned; the original exception reaches the caller; the driver is closed (corollaries bracketed, always_closed). The shape is re-extracted from SemantivaOrchestrator.execute on every run and `shape.good` re-decided. Real traced runs inject a fault at every node index for every failure kind (processor exception, KeyboardInterrupt, unresolvable parameter, type gate, undeclared write, two construction errors) across detail levels and file/directory output; the record sequence is compared with the model run on the same plan, and ids, upstream lists vs canonical edges, schema validity of every line, the exception class and the closed file are checked on the real output.",
+  note="Trusted: Lean kernel; the lexical extractor in props/tracegen.py (conservative: a construct it does not recognise yields `false`); jsonschema validation of emitted lines is support, not proof; a fault is abstracted to (position, exception class).",
+  design="§7 C06"),
  "C08": dict(
   technique="Lean 4 proof over a hand-written executable model (index formula of the Cartesian product via uniform-chunk flatMap indexing; planned size = materialised size by induction over blocks) + differential run real expand_run_space vs compiled Lean model + subprocess cap-promptness runs",
   text="Theorems sortCols_sorted (keys in sorted order, none lost), expandComb_length / expandComb_getElem? / expandComb_keys (product size, last-key-fastest order as an index recursion, every run carries exactly the keys), expandPosN_getElem?, posSize_ok_iff / posSize_mismatch (aligned positions, unequal lengths rejected), blockRuns_length and combineRuns_length (the arithmetic plan equals the number of runs materialised, for any number of blocks), expand_of_plan / expand_ok_le_cap (the max-runs error is raised exactly when the planned total exceeds the cap, decided before anything is materialised), expand_validation_error. The model is tied to /repo by running the real expand_run_space (dataclass door and YAML door, files in four formats with select/rename) and the Lean model on the same generated specs and comparing ordered run lists / error classes; promptness is observed on specs with up to 1.6e13 planned runs under an address-space and time limit.",
